@@ -48,6 +48,8 @@ def plan(tier, seed):
     for i in range(2 if tier == "quick" else 6):
         specs.append({"name": "cli%d" % i, "kind": "cli", "shard": 90 + i, "datasets": 1 if tier == "quick" else 3, "timeout": 7000})
     for i in range(2):
+        specs.append({"name": "wide%d" % i, "kind": "wide", "shard": 130 + i, "instances": 8 if tier == "quick" else 80, "timeout": 7000})
+    for i in range(2):
         specs.append({"name": "reuse%d" % i, "kind": "reuse", "shard": 120 + i, "instances": 25 if tier == "quick" else 300, "timeout": 7000})
     for i in range(4):
         specs.append({"name": "prog%d" % i, "kind": "prog", "shard": 110 + i, "datasets": 12 if tier == "quick" else 60, "timeout": 7000})
@@ -63,6 +65,7 @@ def required(tier):
             "compound_paths_enumerated": 2000, "compound_rows_from_homozygous_state": 20,
             "prog_targets_compared": 100, "prog_targets_with_prior_frequencies": 20, "prog_targets_with_zero_frequency_allele": 5,
             "prog_targets_inbred": 20, "prog_datasets_per_sample_inbreeding": 4, "prog_records_with_tiny_nonzero_prior": 5,
+            "wide_gibbs_vectors": 400, "wide_mh_vectors": 400, "wide_vectors_allele_index_ge_64": 200,
             "reuse_second_fits_compared": 60, "reuse_llk_cells_checked": 2000, "reuse_second_fit_revisits_genotype_of_first": 20}
 
 
@@ -451,6 +454,77 @@ def run_compound(tier, seed, spec, col):
             col.sample({"compound_kernel_instance": pack(I), "genotypes": [list(g) for g in gs], "exact_posterior": pi.tolist()})
 
 
+def run_wide(tier, seed, spec, col):
+    """MANY candidate haplotypes (40-250: allele numbers beyond 32 / 64 / 127) at every ploidy 1-7, and ONE likelihood cache
+    shared by a walk of Gibbs / MH vector computations, as in a real chain.  The exact posterior cannot be enumerated at
+    this size, but the full conditional of one allele copy can: for every candidate allele a, log nu(x with a at k) =
+    llk + log prior - log perms, computed directly by the oracle."""
+    from mchap.calling import mcmc as CM
+
+    for i in range(spec["instances"]):
+        rng = gen.rng_for(seed, ID, spec["shard"], i)
+        ploidy = int(1 + (i + spec["shard"]) % 7)
+        n_pos = 8
+        n = int(rng.choice([40, 70, 130, 200, 250]))
+        codes = rng.permutation(256)[:n]
+        haps = np.array([[(int(c_) >> j) & 1 for j in range(n_pos)] for c_ in codes], dtype=np.int8)
+        n_reads = int(rng.integers(1, 7))
+        truth = haps[rng.integers(0, n, size=ploidy)]
+        reads = gen.gen_reads_from_haps(rng, truth, n_reads, np.full(n_pos, 2), n_nucl=2, gap_rate=0.2, err=0.03)
+        counts = rng.integers(1, 4, size=n_reads).astype(np.int64)
+        F = float(rng.choice([0.0, 0.1, 0.4]))
+        freqs = None if rng.random() < 0.4 else np.maximum(rng.dirichlet(np.ones(n)), 1e-4)
+        if freqs is not None:
+            freqs = freqs / freqs.sum()
+        Mx = M.hap_read_matrix(reads, haps)
+        cache = new_cache()
+        llks_a, lpri_a, prob_a = np.empty(n), np.empty(n), np.empty(n)
+        x = [int(a) for a in rng.integers(0, n, size=ploidy)]
+        case = {"kind": "wide", "seed": seed, "shard": spec["shard"], "instance": i, "ploidy": ploidy, "n_haplotypes": n, "F": F}
+        col.case("WIDE|%d|%d" % (spec["shard"], i), nontrivial=True)
+
+        def log_nu(y):
+            g = tuple(sorted(y))
+            return M.log_likelihood_alleles_fast(Mx, g, counts) + M.log_prior(g, n, F, freqs) - M.log_perms(g)
+
+        for step in range(30):
+            k = int(rng.integers(ploidy))
+            w = []
+            for a in range(n):
+                y = list(x)
+                y[k] = a
+                w.append(log_nu(y))
+            g = np.array(x, dtype=np.int32)
+            CM.gibbs_options(g, k, haps, reads, counts, F, llks_a, lpri_a, prob_a, freqs, cache)
+            col.count("wide_gibbs_vectors")
+            if max(x) >= 64:
+                col.count("wide_vectors_allele_index_ge_64")
+            want = np.array(M.normalise_logs(w))
+            got = prob_a.copy()
+            err = float(np.abs(got - want).max()) if np.all(np.isfinite(got)) else float("inf")
+            if not err <= TOL:
+                a_bad = int(np.argmax(np.abs(got - want))) if math.isfinite(err) else -1
+                col.violation("gibbs-not-exact-conditional", "%d haplotypes, ploidy %d, shared cache with %d entries: Gibbs vector differs from the exact conditional by %g at allele %d (state %s position %d, F=%g)"
+                              % (n, ploidy, len(cache) - 1, err, a_bad, x, k, F), case)
+                break
+            # MH vector from the same state: detailed balance of nu on the edge to a proposed allele
+            CM.mh_options(g, k, haps, reads, counts, F, llks_a, lpri_a, prob_a, freqs, cache)
+            col.count("wide_mh_vectors")
+            fwd = prob_a.copy()
+            a = int(rng.integers(n))
+            if a != x[k] and w[a] != -math.inf and w[x[k]] != -math.inf:
+                y = list(x)
+                y[k] = a
+                CM.mh_options(np.array(y, dtype=np.int32), k, haps, reads, counts, F, llks_a, lpri_a, prob_a, freqs, cache)
+                back = prob_a.copy()
+                lhs, rhs = w[x[k]] + math.log(max(fwd[a], 1e-300)), w[a] + math.log(max(back[x[k]], 1e-300))
+                if abs(lhs - rhs) > 1e-7 * max(1.0, abs(lhs)):
+                    col.violation("mh-detailed-balance", "%d haplotypes, ploidy %d, shared cache: nu(x)K(x,y) = e^%.9g but nu(y)K(y,x) = e^%.9g (state %s position %d allele %d)" % (n, ploidy, lhs, rhs, x, k, a), case)
+                    break
+            # walk on: draw the next state from the oracle's conditional
+            x[k] = int(rng.choice(n, p=want / want.sum()))
+
+
 def run_reuse(tier, seed, spec, col):
     """One CallingMCMC object fitted on the reads of one sample and then on the reads of ANOTHER: the second fit must target
     the posterior of the second sample's reads - every recorded log-likelihood equals the oracle's for THOSE reads, and
@@ -707,6 +781,8 @@ def run_shard(tier, seed, spec, col):
         return run_prog(tier, seed, spec, col)
     if spec["kind"] == "reuse":
         return run_reuse(tier, seed, spec, col)
+    if spec["kind"] == "wide":
+        return run_wide(tier, seed, spec, col)
     {"kernel": run_kernel, "freq": run_freq, "cli": run_cli, "compound": run_compound}[spec["kind"]](tier, seed, spec, col)
 
 
